@@ -24,7 +24,7 @@ def sh(cmd, **kw):
 def main():
     rows = []
     cands = []
-    for rnd, base in ((1, "_candidates"), (2, "_candidates2"), (3, "_candidates3"), (4, "_candidates4"), (5, "_candidates5"), (6, "_candidates6")):
+    for rnd, base in ((1, "_candidates"), (2, "_candidates2"), (3, "_candidates3"), (4, "_candidates4"), (5, "_candidates5"), (6, "_candidates6"), (7, "_candidates7")):
         for d in sorted(glob.glob(os.path.join(SEEDED, base, "C*", "m*"))):
             cands.append((rnd, d))
     only = sys.argv[1:] if len(sys.argv) > 1 else None
